@@ -11,7 +11,7 @@ core.import_dfols()
 from dfols.trust_region import trsbox_geometry, ctrsbox_pgd, ctrsbox_geometry, ctrsbox_sfista  # noqa: E402
 from dfols.controller import Controller  # noqa: E402
 from dfols.params import ParameterList  # noqa: E402
-from dfols.util import model_value  # noqa: E402
+from dfols.util import model_value, dykstra  # noqa: E402
 import dfols.controller as _C  # noqa: E402
 import dfols.trust_region as _T  # noqa: E402
 
@@ -238,7 +238,10 @@ def regstep_cases(draw):
             "x": [draw(sc.g8) for _ in range(n)], "pert": draw(st.sampled_from([0.0, 1e-9, 1e-5])),
             "pdir": [draw(sc.g8) for _ in range(n)],
             "bounded": draw(st.booleans()), "w": [abs(draw(sc.g8)) for _ in range(n)], "wl": [draw(st.sampled_from([0.0, 1.0])) * abs(draw(sc.g8)) for _ in range(n)],
-            "rho": 10.0 ** draw(st.integers(-6, 0)), "max_iters": draw(st.sampled_from([50, 150]))}
+            "rho": 10.0 ** draw(st.integers(-6, 0)), "max_iters": draw(st.sampled_from([50, 150])),
+            # 0-3 user sets (drawn around the origin, translated to the current iterate at run time; touching allowed): the step then
+            # comes from S-FISTA over Dykstra, as in solve() with projections + regulariser (the bound box is appended last)
+            "sets": draw(sc.draw_sets(n, [0.0] * n, 1.0, nmin=1, nmax=3, touching=True)) if draw(st.integers(0, 2)) == 0 else []}
 
 
 _raw = [None]
@@ -276,11 +279,30 @@ def run_regstep(case):
     npt = n + 1
     params = ParameterList(n, npt, 100)
     params("func_tol.max_iters", new_value=case["max_iters"])
-    ctl = Controller(f, (), xk.copy(), f(xk), 1, xl, xu, [], npt, rho, rho * 1e-3, 1, 1, 100, params, None, False,
+    projs = []
+    if case.get("sets"):
+        for sp in case["sets"]:
+            sp = dict(sp)
+            if sp["kind"] == "ball":
+                sp["c"] = (np.array(sp["c"]) + xk).tolist()
+            elif sp["kind"] == "half":
+                sp["beta"] = float(sp["beta"] + np.dot(sp["a"], xk))
+            else:
+                sp["l"] = (np.array(sp["l"]) + xk).tolist()
+                sp["u"] = (np.array(sp["u"]) + xk).tolist()
+            projs.append(sc.set_projector(sp))
+        xlb, xub = xl.copy(), xu.copy()
+        projs.append(lambda w: np.minimum(np.maximum(w, xlb), xub))       # as solve() does: the bound box is the last projector
+        xl, xu = -1e20 * np.ones(n), 1e20 * np.ones(n)
+    ctl = Controller(f, (), xk.copy(), f(xk), 1, xl, xu, projs, npt, rho, rho * 1e-3, 1, 1, 100, params, None, False,
                      h=h, lh=lh, argsh=(), prox_uh=prox, argsprox=())
     for k in range(1, npt):
         s = np.zeros(n)
         s[k - 1] = min(rho, (xu[k - 1] - xk[k - 1]) / 2)
+        if projs:
+            s = dykstra(projs, xk + s, max_iter=100, tol=1e-10) - xk
+            if not np.any(s):
+                s[k - 1] = -rho
         ctl.model.change_point(k, s, f(xk + s), k + 1)
     if not ctl.model.interpolate_mini_models_svd()[0]:
         res.count("interpolation-failed")
@@ -311,6 +333,7 @@ def run_regstep(case):
         rawpred = h(xo) - (float(gopt.dot(r)) + 0.5 * float(r.dot(H).dot(r)) + h(xo + r))
         rawneg = rawpred < 0
     res.classes.append("mode:" + case["mode"])
+    res.classes.append("user-sets:%d" % len(case.get("sets") or []))
     if rawneg:
         res.classes.append("raw-step-uphill")
     res.nontrivial = bool(rawneg)
